@@ -199,8 +199,19 @@ def build_unit(k, vseed):
             pa, pb = UNIT_POOL, UNIT_DIV
         else:
             pa, pb = UNIT_POOL, UNIT_POOL
-        a_ = var(ta, r.choice(pa[ta]))
-        b_ = var(tb, r.choice(pb[tb]))
+        va, vb = r.choice(pa[ta]), r.choice(pb[tb])
+        if op in ('=', '<>', '<', '>', '<=', '>=') and r.random() < 0.7:
+            # value pairs that are equal in one operand type and different in the other
+            pairs = {('&', '!'): [(16777217, 16777216.0), (33554433, 33554432.0), (16777215, 16777216.0)],
+                     ('!', '#'): [(0.1, 0.1), (16777216.0, 16777217.0), (0.7, 0.7)],
+                     ('&', '#'): [(16777217, 16777217.0), (2147483647, 2147483647.0)],
+                     ('%', '!'): [(3, 3.0000001), (255, 255.00002)]}
+            if (ta, tb) in pairs:
+                va, vb = r.choice(pairs[(ta, tb)])
+            elif (tb, ta) in pairs:
+                vb, va = r.choice(pairs[(tb, ta)])
+        a_ = var(ta, va)
+        b_ = var(tb, vb)
         stmts.append(f'{a_} {op} {b_}')
     for e in stmts:
         lines.append(f'PRINT {e}')
